@@ -161,6 +161,15 @@ def render_tables(t):
 
 
 def regenerate():
+    """Rewrites every generated Coq file (only when its content changes).  Plug-ins live in
+    harness/genmods/*.py, each exposing regenerate()."""
     t = tables()
     core.write_if_changed(os.path.join(core.COQDIR, "theories", "Gen", "Tables.v"), render_tables(t))
+    import importlib
+    import pkgutil
+    import harness.genmods as gm
+    for m in sorted(pkgutil.iter_modules(gm.__path__), key=lambda x: x.name):
+        mod = importlib.import_module("harness.genmods." + m.name)
+        if hasattr(mod, "regenerate"):
+            mod.regenerate()
     return t
